@@ -2,6 +2,7 @@ import sys
 import time
 import collections
 import operator
+from email.errors import MessageError
 from http.cookies import SimpleCookie, CookieError
 
 import uuid
@@ -766,7 +767,13 @@ class Request(object):
             name = name.title()
             value = value.strip()
 
-            headers[name] = httputil.decode_TEXT_maybe(value)
+            try:
+                headers[name] = httputil.decode_TEXT_maybe(value)
+            except (LookupError, ValueError, MessageError):
+                # unknown charset, undecodable payload, broken base64
+                raise cherrypy.HTTPError(
+                    400, 'The %r request header contains an RFC 2047 '
+                    'encoded word that cannot be decoded.' % name)
 
             # Some clients, notably Konquoror, supply multiple
             # cookies on different lines with the same key. To
